@@ -88,20 +88,30 @@ func f1(w *World, r *Report) {
 	}
 	ev := needFn(r, "F-1", w, fref{"ctrlers/vm/evm", "EVMCtrler", "ValidateTrx"})
 	if ev != nil {
-		g, ok := w.guardProtectsSuccess(ev, func(c string) bool {
-			return strings.HasPrefix(c, "(p0.Tx.Gas < core.IntrinsicGas(") && strings.HasSuffix(c, ")#0)")
-		})
-		if g == nil {
-			r.Violate("F-1", "EVMCtrler.ValidateTrx:intrinsic-gas", "no guard rejects a gas limit below the intrinsic gas", nil, fnSite(w, ev))
-		} else {
-			// the intrinsic gas is computed on the transaction's own payload and creation flag
-			okArgs := false
-			for _, c := range w.callsTo(ev, fref{"github.com/ethereum/go-ethereum/core", "", "IntrinsicGas"}) {
-				a := c.Common().Args
-				okArgs = strings.Contains(w.Canon(a[0]), "p0.Tx.Payload.(*types.TrxPayloadContract)") && w.Canon(a[2]) == "types.IsZeroAddress(p0.Tx.To)"
+		// under "gas limit < intrinsic gas" the validation has no successful path
+		ok, why := w.failsUnder(ev, nil, AR(`^p0\.Tx\.Gas$`, "<", `^core\.IntrinsicGas\(.*\)#0$`))
+		// the intrinsic gas is computed on the transaction's own payload and creation flag
+		// (the payload extraction may sit in a helper: expanded canonical form)
+		okArgs := false
+		for _, c := range w.callsTo(ev, fref{"github.com/ethereum/go-ethereum/core", "", "IntrinsicGas"}) {
+			a := c.Common().Args
+			a0 := w.CanonI(a[0])
+			if !strings.Contains(a0, "TrxPayloadContract") {
+				// a multi-block helper: its returned values must come from the contract payload
+				if call, isCall := a[0].(*ssa.Call); isCall {
+					if cal := call.Common().StaticCallee(); cal != nil && w.InModule(cal) {
+						vals, complete := w.returnedValues(cal, 0, func(ssa.Value) (bool, bool) { return false, false }, 0)
+						for _, v := range vals {
+							if complete && strings.Contains(w.Canon(v), "TrxPayloadContract") {
+								a0 = w.Canon(v)
+							}
+						}
+					}
+				}
 			}
-			r.Check(ok && okArgs, "F-1", "EVMCtrler.ValidateTrx:intrinsic-gas", "gas limit below the intrinsic gas of this transaction's payload is rejected on every success path", "the intrinsic-gas check is bypassed or not computed on this transaction's payload", site(w, g.If))
+			okArgs = strings.Contains(a0, "TrxPayloadContract") && w.Canon(a[2]) == "types.IsZeroAddress(p0.Tx.To)"
 		}
+		r.Check(ok && okArgs, "F-1", "EVMCtrler.ValidateTrx:intrinsic-gas", "gas limit below the intrinsic gas of this transaction's payload is rejected on every success path ("+why+")", "the intrinsic-gas check is bypassed or not computed on this transaction's own payload: "+why, fnSite(w, ev))
 	}
 	n := 0
 	for _, fn := range w.nodeFuncs() {
